@@ -8,7 +8,7 @@ from pyvc.values import Obj, Arr
 
 S = "wavespectra/spectrum.py::"
 NAME_F, NAME_D, NAME_E = "frequency", "direction", "variance_density"
-P = "p"      # the collapsed leading (space/time) dimension
+P = "time"   # the collapsed leading (space/time) dimension; its coordinate is the time stamp
 
 
 def _xa(mk, dims, arr, nan=None, coords=None):
@@ -17,10 +17,12 @@ def _xa(mk, dims, arr, nan=None, coords=None):
 
 
 def spectrum(mk, kind="1d", nan=True, moments=True, via_init=False):
-    """symbolic spectrum object of the real class; leading dims collapsed into one (P)"""
+    """symbolic spectrum object of the real class; leading dims collapsed into one (P = 'time', a coordinate)"""
     npnt, nf = mk.size("np"), mk.size("nf")
     f = mk.array("f", (nf,))
-    coords = {NAME_F: f}
+    tcoord = mk.array("time", (npnt,))
+    lead = {P: tcoord}
+    coords = {P: tcoord, NAME_F: f}
     vs = {}
     if kind == "1d":
         E = mk.array("E", (npnt, nf))
@@ -38,9 +40,9 @@ def spectrum(mk, kind="1d", nan=True, moments=True, via_init=False):
         En = mk.array("E_nan", (npnt, nf, nd), "bool") if nan else None
         vs[NAME_E] = _xa(mk, (P, NAME_F, NAME_D), E, En, coords)
         cls = "FrequencyDirectionSpectrum"
-    vs["depth"] = _xa(mk, (P,), mk.array("depth", (npnt,)), mk.array("depth_nan", (npnt,), "bool"))
-    for v in ("latitude", "longitude", "time"):
-        vs[v] = _xa(mk, (P,), mk.array(v, (npnt,)))
+    vs["depth"] = _xa(mk, (P,), mk.array("depth", (npnt,)), mk.array("depth_nan", (npnt,), "bool"), lead)
+    for v in ("latitude", "longitude"):
+        vs[v] = _xa(mk, (P,), mk.array(v, (npnt,)), None, lead)
     ds = mk.st.alloc(Obj("Dataset", {"vars": vs, "coords": {k: mk.st.deref(v) for k, v in coords.items()}}), "dataset")
     if via_init:
         # constructed by executing the real __init__ chain (so that attributes it sets exist)
@@ -95,6 +97,8 @@ class Spec:
     def var(self, name, *ix):
         if self.native:
             v = self.s.dataset[name].values.reshape((self.np_, -1) if name not in ("depth", "latitude", "longitude", "time") else (self.np_,))
+            if name == "time":
+                v = v.astype("datetime64[s]").astype("float64")
             return float(v[ix])
         return self.s.dataset.vars[name].arr[ix]
 
@@ -181,5 +185,9 @@ def native_spectrum(d):
     data["depth"] = (("time",), arr(vs["depth"]["arr"], vs["depth"].get("nan")))
     for v in ("latitude", "longitude"):
         data[v] = (("time",), arr(vs[v]["arr"]))
+    if "time" in cs:
+        t = np.asarray(cs["time"], dtype="float64")
+        if len(np.unique(np.round(t))) == len(t):
+            coords["time"] = np.round(t).astype("int64").astype("datetime64[s]")
     ds = xarray.Dataset(data_vars=data, coords=coords)
     return (FrequencyDirectionSpectrum if two_d else FrequencySpectrum)(ds)
